@@ -118,13 +118,22 @@ def shim_enumeration(ctx, stg, cases):
                 proto.setup_case(r, stg, setup)
                 s0 = proto.observe(r)
                 shim = rigs.GitShim(r)
+                pd = rigs.PointDir(r, "shimpt")
                 r.tick = 2000000000
-                p = r.stg(stg, cmd, env=shim.env(fail=k))
+                env = shim.env(fail=k)
+                env["STGIT_VERIF_DIR"] = pd.path
+                p = r.stg(stg, cmd, env=env)
                 s1 = proto.observe(r)
+                reached = {nm for (_, nm, _) in pd.log()}
+                pd.remove()
                 shim.remove()
             n_runs += 1
             if p.returncode == 2 and (s1["refs"] != s0["refs"] or s1["tree"] != s0["tree"] or s1["unmerged"]):
-                after_merge = first_merge is not None and k > first_merge
+                # F11 is the class "an error between the closure's work-tree merge and
+                # execute()'s own check-out": once execute() has started its check-out the
+                # rollback path must restore everything
+                after_merge = (first_merge is not None and k > first_merge
+                               and "exec.before_checkout" not in reached)
                 failures.append({"case": name, "setup": setup, "cmd": cmd, "failed_git_call": k,
                                  "call": calls[k - 1][1][:80], "exit": 2,
                                  "refs_changed": s1["refs"] != s0["refs"], "tree_changed": s1["tree"] != s0["tree"],
@@ -161,7 +170,7 @@ def run_c03(ctx):
                     had = True
                     common.violation(ctx, replay_doc(r, rec, bad), found_input=True, hint="oracle-")
     shim_cases = [proto.case_by_name(n) if hasattr(proto, "case_by_name") else case_by_name(n)
-                  for n in (["pop", "push-wtmerge", "delete"] if ctx.quick() else [c[0] for c in proto.CASES])]
+                  for n in (["pop", "push-wtmerge", "push-wtmerge-two", "delete"] if ctx.quick() else [c[0] for c in proto.CASES])]
     n_runs, failures = shim_enumeration(ctx, stg, shim_cases)
     ctx.coverage["git_invocation_faults"] = n_runs
     ctx.coverage["evaluations"] += n_runs
